@@ -15,6 +15,8 @@ import (
 	"strings"
 	"time"
 
+	"go/types"
+
 	"golang.org/x/tools/go/ssa"
 )
 
@@ -322,6 +324,21 @@ func runCheck(repo, verif, prop string, thorough, verbose, writeEvidence, update
 			}
 			inTargets[uf] = len(targets)
 			targets = append(targets, target{fn: uf, fc: fc, extra: eng.ifaceClausesFor(uf), closure: true})
+		}
+		// Function values and interface calls without an interface contract: a property that depends on a function through a
+		// closure made here (Manager.Save's store callback) or through an interface method that carries no contract of its own
+		// (persistence.Store.Save) is protected by that function's contract only if it is verified in this check. Closures made
+		// by a target and the /repo implementations (under contract) of every interface method a target invokes join the closure.
+		for _, rf := range eng.relatedByValue(t.fn) {
+			if _, ok := inTargets[rf]; ok || !eng.inRepo(rf) || len(rf.Blocks) == 0 {
+				continue
+			}
+			fc := eng.contractFor(rf)
+			if fc == nil || fc.Trusted || fc.Assumed || fc.Pkg == "" {
+				continue
+			}
+			inTargets[rf] = len(targets)
+			targets = append(targets, target{fn: rf, fc: fc, extra: eng.ifaceClausesFor(rf), closure: true})
 		}
 		for _, ik := range res.UsedIfaces {
 			if doneIface[ik] {
@@ -904,6 +921,50 @@ func runStandins(eng *Engine, repo, verif, prop string, thorough bool) []map[str
 			}
 		}
 		out = append(out, res)
+	}
+	return out
+}
+
+
+// relatedByValue: the closures fn makes and the /repo methods that implement an interface method fn invokes.
+func (eng *Engine) relatedByValue(fn *ssa.Function) []*ssa.Function {
+	var out []*ssa.Function
+	seen := map[*ssa.Function]bool{}
+	add := func(f *ssa.Function) {
+		if f != nil && !seen[f] {
+			seen[f] = true
+			out = append(out, f)
+		}
+	}
+	for _, b := range fn.Blocks {
+		for _, in := range b.Instrs {
+			if mc, ok := in.(*ssa.MakeClosure); ok {
+				if f, ok := mc.Fn.(*ssa.Function); ok {
+					add(f)
+				}
+			}
+			ci, ok := in.(ssa.CallInstruction)
+			if !ok || !ci.Common().IsInvoke() {
+				continue
+			}
+			cc := ci.Common()
+			it, ok := cc.Value.Type().Underlying().(*types.Interface)
+			if !ok {
+				continue
+			}
+			for _, key := range sortedKeys(eng.funcs) {
+				f := eng.funcs[key]
+				if f.Name() != cc.Method.Name() || f.Synthetic != "" || f.Signature.Recv() == nil {
+					continue
+				}
+				rt := f.Signature.Recv().Type()
+				if types.Implements(rt, it) {
+					add(f)
+				} else if _, isPtr := rt.(*types.Pointer); !isPtr && types.Implements(types.NewPointer(rt), it) {
+					add(f)
+				}
+			}
+		}
 	}
 	return out
 }
